@@ -26,6 +26,9 @@ pub struct Shape {
     pub shared_prefix: Option<usize>,
     /// which string has a two-unit last character: 0 = none, 1 = the word, 2+j = candidate j
     pub wide: usize,
+    /// near-identical long candidates: Some word of `near` pairwise different characters against the
+    /// word without its last / first character, with one more character, and with one replaced
+    pub near: usize,
     pub word: usize,
     pub cands: Vec<usize>,
     pub n: usize,
@@ -118,16 +121,16 @@ impl Prop for C18 {
                         continue;
                     }
                     for c in cutoffs(word, cands) {
-                        v.push(Shape { many: false, blocks: None, shared_prefix: None, wide: 0, word, cands: cands.clone(), n, cutoff_bits: c });
+                        v.push(Shape { near: 0, many: false, blocks: None, shared_prefix: None, wide: 0, word, cands: cands.clone(), n, cutoff_bits: c });
                         // variants in which one string ends in a character that occupies two
                         // units (string length in units != number of characters)
                         if n >= 1 && total <= 6 {
                             if word > 0 {
-                                v.push(Shape { many: false, blocks: None, shared_prefix: None, wide: 1, word, cands: cands.clone(), n, cutoff_bits: c });
+                                v.push(Shape { near: 0, many: false, blocks: None, shared_prefix: None, wide: 1, word, cands: cands.clone(), n, cutoff_bits: c });
                             }
                             for (j, l) in cands.iter().enumerate() {
                                 if *l > 0 {
-                                    v.push(Shape { many: false, blocks: None, shared_prefix: None, wide: 2 + j, word, cands: cands.clone(), n, cutoff_bits: c });
+                                    v.push(Shape { near: 0, many: false, blocks: None, shared_prefix: None, wide: 2 + j, word, cands: cands.clone(), n, cutoff_bits: c });
                                 }
                             }
                         }
@@ -145,7 +148,7 @@ impl Prop for C18 {
                 for k in 0..=a.min(b) {
                     let r = ratio(k, a, b).to_bits();
                     for c in [r, r.saturating_sub(1), if ratio(k, a, b) < 1.0 { r + 1 } else { r }] {
-                        v.push(Shape { many: false, blocks: None, shared_prefix: Some(k), wide: 0, word: a, cands: vec![b], n: 1, cutoff_bits: c });
+                        v.push(Shape { near: 0, many: false, blocks: None, shared_prefix: Some(k), wide: 0, word: a, cands: vec![b], n: 1, cutoff_bits: c });
                     }
                 }
             }
@@ -161,13 +164,19 @@ impl Prop for C18 {
                     continue;
                 }
                 for c in [0.0f32.to_bits(), 0.5f32.to_bits()] {
-                    v.push(Shape { many: false, blocks: Some((old, new, blen)), shared_prefix: None, wide: 0, word: a, cands: vec![b], n: 1, cutoff_bits: c });
+                    v.push(Shape { near: 0, many: false, blocks: Some((old, new, blen)), shared_prefix: None, wide: 0, word: a, cands: vec![b], n: 1, cutoff_bits: c });
                 }
             }
         }
         for n in [0usize, 1, 10, 30, 33, 44, 50] {
             for c in [0.6f32.to_bits(), 0.75f32.to_bits(), 0.8f32.to_bits()] {
-                v.push(Shape { many: true, blocks: None, shared_prefix: None, wide: 0, word: 4, cands: vec![], n, cutoff_bits: c });
+                v.push(Shape { near: 0, many: true, blocks: None, shared_prefix: None, wide: 0, word: 4, cands: vec![], n, cutoff_bits: c });
+            }
+        }
+        // long near-identical candidates: ratios that differ by less than 1e-4
+        for k in (match tier { Tier::Quick => (70usize..=112).collect::<Vec<_>>(), Tier::Thorough => (60usize..=200).collect() }) {
+            for n in [1usize, 2, 4] {
+                v.push(Shape { near: k, many: false, blocks: None, shared_prefix: None, wide: 0, word: k, cands: vec![], n, cutoff_bits: 0.6f32.to_bits() });
             }
         }
         v.dedup_by(|x, y| x.shared_prefix.is_some() && x.shared_prefix == y.shared_prefix && x.word == y.word && x.cands == y.cands && x.cutoff_bits == y.cutoff_bits);
@@ -247,6 +256,22 @@ impl Prop for C18 {
             word = w;
             engine::witness("many_candidates_paths");
         }
+        if s.near > 0 {
+            let w: Vec<Sym> = (0..s.near).map(|_| symtxt::fresh_char(Class::Ord)).collect();
+            let f: Vec<Sym> = (0..2).map(|_| symtxt::fresh_char(Class::Ord)).collect();
+            let ids: Vec<u32> = w.iter().chain(f.iter()).map(|x| x.0).collect();
+            engine::assume(&F::Distinct(ids.clone()));
+            for id in ids {
+                engine::set_hash_class(id, id as u64);
+            }
+            let mut longer = w.clone();
+            longer.push(f[0]);
+            let mut repl = w.clone();
+            repl[s.near / 2] = f[1];
+            cands = vec![w[..s.near - 1].to_vec(), repl, longer, w[1..].to_vec(), w[..s.near - 2].to_vec()];
+            word = w;
+            engine::witness("near_identical_long_candidates_paths");
+        }
         if let Some(k) = s.shared_prefix {
             // candidate 0 = first k characters of the word + fresh ones; everything else pairwise different
             let fresh: Vec<Sym> = cands[0][k..].to_vec();
@@ -318,10 +343,11 @@ impl Prop for C18 {
         (s.word + s.cands.iter().sum::<usize>()) as u64
     }
     fn shape_json(&self, s: &Shape) -> Value {
-        json!({"many_candidates": s.many, "blocks": s.blocks.map(|(a, b, l)| json!({"word": a.to_vec(), "candidate": b.to_vec(), "blen": l})), "shared_prefix": s.shared_prefix, "wide_last_char_in": s.wide, "word_len": s.word, "candidate_lens": s.cands, "n": s.n, "cutoff_bits": s.cutoff_bits, "cutoff": f32::from_bits(s.cutoff_bits)})
+        json!({"near": s.near, "many_candidates": s.many, "blocks": s.blocks.map(|(a, b, l)| json!({"word": a.to_vec(), "candidate": b.to_vec(), "blen": l})), "shared_prefix": s.shared_prefix, "wide_last_char_in": s.wide, "word_len": s.word, "candidate_lens": s.cands, "n": s.n, "cutoff_bits": s.cutoff_bits, "cutoff": f32::from_bits(s.cutoff_bits)})
     }
     fn shape_from(&self, v: &Value) -> Shape {
         Shape {
+            near: v["near"].as_u64().unwrap_or(0) as usize,
             many: v["many_candidates"].as_bool().unwrap_or(false),
             blocks: if v["blocks"].is_object() {
                 let arr = |k: &str| -> [u8; 5] {
@@ -358,9 +384,9 @@ impl Prop for C18 {
                 "Ord/Eq/Hash of the string type (SymTxt, decided by z3)",
             ],
             bounds: format!("word of 0..={l} characters, 0..={c} candidates of 0..={l} characters each (empty and duplicate candidates included; all characters symbolic; for up to 6 characters in total also variants in which the last character of the word or of one candidate occupies two units, so that string length and character count differ), n in 0..=3 (at most {t} characters in word and candidates together), plus a many-candidates family (a word of 4 different characters and 47 candidates - the word, all 24 single substitutions, 15 single insertions, 4 single deletions, 3 unrelated strings - over a pool of characters in a fixed strict order, passed in a scrambled order; n in 0, 1, 10, 30, 33, 44, 50; cutoffs 0.6, 0.75, 0.8); plus block-structured strings (up to 4 blocks of 4 / 3 / 4 characters a side over 3 block types, i.e. up to 16 characters with repeated stretches, rotations and unique markers; cutoffs 0 and 0.5) and a family of longer strings (word of up to 14 / 30 pairwise different characters, one candidate sharing exactly its first k characters, cutoff = the candidate's ratio 2k/(a+b) and one ulp below / above); cutoff in the finite set of f32 values at which the result can change: every attainable ratio 2k/(a+b), each also one ulp below and above, plus 0, 0.5 and 1", l = match tier { Tier::Quick => 3, Tier::Thorough => 3 }, c = match tier { Tier::Quick => 2, Tier::Thorough => 3 }, t = match tier { Tier::Quick => 7, Tier::Thorough => 9 }),
-            outside: "longer words / more candidates; cutoffs outside [0,1]; NaN; the f32 quantisation regime of very long strings; str/[u8] tokenize_chars (C06)".into(),
+            outside: "plus (stated here, part of the bounds) near-identical long candidates: a word of k = 70..=112 (thorough 60..=200) pairwise different characters against the word without its last / first / last two characters, with one character appended and with one replaced - ratios less than 1e-4 apart - n in 1, 2, 4, cutoff 0.6; OUTSIDE: other long words / more candidates; cutoffs outside [0,1]; NaN; the f32 quantisation regime of very long strings; str/[u8] tokenize_chars (C06)".into(),
             assumptions: vec!["the reference ranking is computed by the harness from a solver-decided LCS and the same f32 formula".into(), "among candidates with equal content the order is unspecified: entries are compared by content, and each returned reference must be a distinct candidate passed in".into()],
-            required_witnesses: vec!["many_candidates_paths", "block_structured_string_paths", "exact_cutoff_family_paths", "paths_with_a_candidate_below_the_cutoff", "paths_with_two_or_more_matches", "paths_with_a_ratio_tie", "paths_with_a_ratio_exactly_at_the_cutoff", "paths_truncated_by_n"],
+            required_witnesses: vec!["many_candidates_paths", "block_structured_string_paths", "exact_cutoff_family_paths", "near_identical_long_candidates_paths", "paths_with_a_candidate_below_the_cutoff", "paths_with_two_or_more_matches", "paths_with_a_ratio_tie", "paths_with_a_ratio_exactly_at_the_cutoff", "paths_truncated_by_n"],
             rule: "one state = one explored path (equality/order pattern of all characters) for one (lengths, n, cutoff) shape".into(),
         }
     }
